@@ -74,3 +74,31 @@ fn dropping_the_executor_drops_parked_futures_whose_waker_lives_elsewhere() {
     assert!(sched.schedule(async {}).is_err(), "schedule() on a destroyed executor");
     drop(keep);
 }
+
+/// round 9 (seed C10-7): a wake issued WHILE the stream is being polled (a stream that yields cooperatively: wakes its own
+/// waker, then returns Pending) is a wake like any other: the stream is polled again and every item arrives
+#[test]
+fn a_wake_issued_during_the_poll_of_the_stream_is_not_lost() {
+    use std::pin::Pin;
+    use std::task::{Context, Poll};
+    struct Yielding { next: u32, yielded: bool }
+    impl futures::Stream for Yielding {
+        type Item = u32;
+        fn poll_next(mut self: Pin<&mut Self>, cx: &mut Context<'_>) -> Poll<Option<u32>> {
+            if !self.yielded { self.yielded = true; cx.waker().wake_by_ref(); return Poll::Pending; }
+            self.yielded = false;
+            if self.next == 3 { return Poll::Ready(None); }
+            self.next += 1;
+            Poll::Ready(Some(self.next - 1))
+        }
+    }
+    let mut el: EventLoop<Vec<Option<u32>>> = EventLoop::try_new().unwrap();
+    el.handle().insert_source(StreamSource::new(Yielding { next: 0, yielded: false }).unwrap(), |it, _, v: &mut Vec<Option<u32>>| v.push(it)).unwrap();
+    let mut v = vec![];
+    let t = Instant::now();
+    while v.last() != Some(&None) {
+        el.dispatch(Duration::from_millis(50), &mut v).unwrap();
+        assert!(t.elapsed() < Duration::from_secs(3), "the stream woke itself while it was polled and was never polled again: {:?}", v);
+    }
+    assert_eq!(v, vec![Some(0), Some(1), Some(2), None]);
+}
